@@ -59,9 +59,22 @@ type worldRT struct {
 	log      []string             // configured URL of each request, in arrival order
 	onReq    func(url string)     // hook (barriers, cancellation)
 	seq      *eventSeq
+	noSeq    map[string]bool // URLs whose exchanges are put on the time line by someone else (the logging fetcher)
 }
 
-func newWorldRT() *worldRT { return &worldRT{handlers: map[string]rtHandler{}} }
+func newWorldRT() *worldRT { return &worldRT{handlers: map[string]rtHandler{}, noSeq: map[string]bool{}} }
+
+// loggingFetcher puts every Fetch call on the time line (the real HTTPFetcher may answer from,
+// or fail in, its cache without any request reaching the transport)
+type loggingFetcher struct {
+	inner crlpkg.Fetcher
+	seq   *eventSeq
+}
+
+func (l *loggingFetcher) Fetch(ctx context.Context, url string) (*crlpkg.Bundle, error) {
+	l.seq.add(url)
+	return l.inner.Fetch(ctx, url)
+}
 
 func (w *worldRT) match(req *http.Request) (string, rtHandler) {
 	full := req.URL.String()
@@ -90,7 +103,9 @@ func (w *worldRT) RoundTrip(req *http.Request) (*http.Response, error) {
 	w.log = append(w.log, u)
 	hook := w.onReq
 	w.mu.Unlock()
-	w.seq.add(u)
+	if !w.noSeq[u] {
+		w.seq.add(u)
+	}
 	if hook != nil {
 		hook(u)
 	}
